@@ -346,7 +346,7 @@ def oracle_realistic(ctx, rng, problems, n):
         t1 = (models.Shift(-crpix[0] * u.pix) & models.Shift(-crpix[1] * u.pix) | models.Rotation2D(ang * u.deg)
               | models.Multiply(scale * u.deg / u.pix) & models.Multiply(scale * u.deg / u.pix)
               | models.Pix2Sky_TAN() | models.RotateNative2Celestial(ra * u.deg, dec * u.deg, 180 * u.deg))
-        bare = rng.random() < -1.0       # (enabled after the fix) the input frame given by its bare name only (no frame object, hence no declared pixel unit)
+        bare = rng.random() < 0.25       # the input frame given by its bare name only (no frame object, hence no declared pixel unit)
         mk = lambda t: wcs.WCS([("detector" if bare else cf.Frame2D(name="detector", unit=(u.pix, u.pix)), t),  # noqa: E731
                                 (cf.CelestialFrame(reference_frame=rf, name="sky", unit=(fu, fu)), None)])
         w0, w1 = mk(t0), mk(t1)
